@@ -340,7 +340,12 @@ fn gen_shape(d: &mut Dice, is_enum: bool) -> Shape {
         (0..nv)
             .map(|k| {
                 let kind = [VK::Tuple, VK::Named, VK::Unit][d.weighted(&[4, 3, 3])];
-                Var { name: VNAMES[k], kind, fields: gen_fields(d, kind, slot_mode, pool, raw) }
+                let mut fields = gen_fields(d, kind, slot_mode, pool, raw);
+                // `A()` / `A {}`: a tuple/named variant with zero fields is not a unit variant (field-wise with n = 0)
+                if kind != VK::Unit && d.chance(7) {
+                    fields.clear();
+                }
+                Var { name: VNAMES[k], kind, fields }
             })
             .collect()
     } else {
@@ -657,6 +662,9 @@ fn finish(p: &Plan, r: Rendered) -> GenCase {
             if sh.vars.iter().any(|v| v.kind == k) {
                 labels.push(l.into());
             }
+        }
+        if sh.vars.iter().any(|v| v.kind != VK::Unit && v.fields.is_empty()) {
+            labels.push("enum_has_zero_field_non_unit_variant".into());
         }
     } else {
         labels.push(format!("shape={}", if sh.vars[0].kind == VK::Named { "named" } else { "tuple" }));
